@@ -20,16 +20,32 @@ def uni_bounds(tier):
     return (4, 3) if tier == "thorough" else (3, 2)
 
 
+def index_universe(tier):
+    """(description, spec, how): plain layouts, plus values whose runs are the same objects repeated (f*2, f+f, join)."""
+    k, L = uni_bounds(tier)
+    for spec in C.layouts(k, L):
+        yield spec, None
+    for spec in C.layouts(2, 2):
+        for how in C.REPEAT_HOWS:
+            yield spec, how
+
+
 def shard_index(args):
     tier, seed, idx = args
-    k, L = uni_bounds(tier)
     acc = Acc(seed=seed)
-    for i, spec in enumerate(C.layouts(k, L)):
+    for i, (spec0, how) in enumerate(index_universe(tier)):
         if i % NSHARDS != idx:
             continue
-        f = C.build(spec)
-        fc = C.cells(f)
-        if fc != C.spec_cells(spec):
+        if how is None:
+            spec = spec0
+            f = C.build(spec)
+            fc = C.cells(f)
+            want_cells = C.spec_cells(spec)
+        else:
+            f, want_cells = C.build_repeated(spec0, how)
+            fc = C.cells(f)
+            spec = tuple(spec0) + (("<" + how + ">", ()),)  # only used as a description / case key
+        if fc != want_cells:
             acc.failure("harness:universe_build", {"f": C.show_spec(spec)}, "")
             continue
         snap = C.snapshot(f)
